@@ -116,6 +116,7 @@ func newEval(c *core.Ctx) *eval.Evaluator {
 		ev.NumCPU = evalNumCPU
 	}
 	ev.VarInit = c.VarInit
+	ev.PkgInits = c.PkgInits
 	ev.Adapt = func(fn *types.Func, args []eval.Value) ([]eval.Value, error) { return adaptArgs(c, fn, args) }
 	installBytesBuffer(ev)
 	return ev
